@@ -113,6 +113,22 @@ Definition wacq (ix : tix) (p : nat) : wres :=
   | Some td => if t_excl td then WSpin else WGot (upd ix p (add_rd 1))
   end.
 
+(* NOT the code: the variant of that iteration which tests "was the partition removed while
+   visiting" by looking the descriptor's TAG LINE up in tmap instead of its source id in smap
+   (seeded change C14-4).  It reads the flags through the pointer, as the Go does.  Used only in
+   props/C14.v to show what the lookup by source id buys (C14_removed_check_by_tags_refuted): after
+   Delete nobody ever clears the exclusive flag of the removed descriptor (UnlockExclusively finds
+   nothing in smap), so once the tag line is re-created this variant waits for ever. *)
+Definition wacq_by_tag (ix : tix) (p : nat) : wres :=
+  match nth_error ix p with
+  | None => WRemoved
+  | Some td =>
+      match find_tag ix (t_tag td) with
+      | None => WRemoved
+      | Some _ => if t_excl td then WSpin else WGot (upd ix p (add_rd 1))
+      end
+  end.
+
 (* ------------------------------------------------------------------ clients *)
 
 (* Client procedures.  Journal-controller results, journal sizes and context cancellation are
